@@ -2089,13 +2089,6 @@ fn connect_phase(connack: &rc::Connack, auth: Option<&rc::Auth>, cut: Option<u16
     }
     let base = w.conn_results.len();
     w.tick();
-    let spec = if auth.is_some() {
-        ConnectSpec { auth_method: Some("m".into()), auth_data: Some(vec![1]), ..Default::default() }
-    } else {
-        ConnectSpec::default()
-    };
-    w.start_connect(spec);
-    settle(&mut w, &plan, false);
     let pkt = match auth {
         Some(a) => rc::Packet::Auth(a.clone()),
         None => rc::Packet::Connack(connack.clone()),
@@ -2109,6 +2102,24 @@ fn connect_phase(connack: &rc::Connack, auth: Option<&rc::Auth>, cut: Option<u16
         _ => rc::Form { order: vec![3, 1, 4, 1, 5, 9, 2, 6, 5, 3, 5, 8, 9, 7, 9, 3, 2, 3, 8], short: false },
     };
     let bytes = rc::encode(&pkt, &form);
+    // the client's own CONNECT may announce a Maximum Packet Size: the server's first answer is
+    // then exactly that long (the largest it may send), one byte shorter, or much shorter
+    let own_max = match hform % 4 {
+        // (an AUTH challenge is followed by a CONNACK of another size: no tight limit there)
+        0 | 1 if auth.is_some() => Some(1 << 20),
+        0 => Some(bytes.len() as u32),
+        1 => Some(bytes.len() as u32 + 1),
+        2 => Some(1 << 20),
+        _ => None,
+    };
+    let mut spec = if auth.is_some() {
+        ConnectSpec { auth_method: Some("m".into()), auth_data: Some(vec![1]), ..Default::default() }
+    } else {
+        ConnectSpec::default()
+    };
+    spec.maximum_packet_size = own_max;
+    w.start_connect(spec);
+    settle(&mut w, &plan, false);
     // user properties are ordered: what was really sent (after the reordering) is what must come out
     let (connack_sent, auth_sent) = match rc::decode_one(&bytes, rc::Dir::FromServer) {
         Ok(rc::Packet::Connack(c)) => (c, None),
